@@ -968,6 +968,38 @@ fn split_text(s: &str) -> Vec<String> {
     ret
 }
 
+fn ends_in_line_comment(s: &str) -> bool {
+    let mut is_string = false;
+    let mut is_block_comment = false;
+    let mut is_line_comment = false;
+    let mut iter = s.chars().peekable();
+    while let Some(c) = iter.next() {
+        if is_line_comment {
+            is_line_comment = c != '\n';
+        } else if is_block_comment {
+            if c == '*' && iter.peek() == Some(&'/') {
+                iter.next();
+                is_block_comment = false;
+            }
+        } else if is_string {
+            if c == '\\' {
+                iter.next();
+            } else if c == '"' {
+                is_string = false;
+            }
+        } else if c == '"' {
+            is_string = true;
+        } else if c == '/' && iter.peek() == Some(&'/') {
+            iter.next();
+            is_line_comment = true;
+        } else if c == '/' && iter.peek() == Some(&'*') {
+            iter.next();
+            is_block_comment = true;
+        }
+    }
+    is_line_comment
+}
+
 fn resolve_text_macro_usage<T: AsRef<Path>, U: AsRef<Path>>(
     x: &TextMacroUsage,
     s: &str,
@@ -1004,7 +1036,14 @@ fn resolve_text_macro_usage<T: AsRef<Path>, U: AsRef<Path>>(
         for arg in args.contents() {
             if let Some(arg) = arg {
                 let (ref arg,) = arg.nodes;
-                let arg = arg.str(&s).trim_end();
+                let arg = arg.str(&s);
+                let trimmed = arg.trim_end();
+                // A one-line comment at the end of the argument keeps its line break,
+                // otherwise it would swallow the text that follows the argument.
+                let arg = match arg[trimmed.len()..].find('\n') {
+                    Some(x) if ends_in_line_comment(trimmed) => &arg[..trimmed.len() + x + 1],
+                    _ => trimmed,
+                };
                 actual_args.push(Some(arg));
             } else {
                 actual_args.push(None);
